@@ -440,8 +440,23 @@ func describe(p payload, mode string, in *interner) string {
 // ---- one validated case ---------------------------------------------------------------------
 
 type ctxt struct {
-	r  *corr.Run
-	in *interner
+	r        *corr.Run
+	in       *interner
+	disagree int
+}
+
+// check records a model/implementation disagreement, but keeps room under the harness-wide issue cap
+// for oracle violations (a replayable failing input is worth more than the 9th disagreement)
+func (c *ctxt) check(stream string, ops []string, model, impl string) {
+	if model == impl {
+		return
+	}
+	c.disagree++
+	if c.disagree > 8 {
+		c.r.Count("disagreements.not-recorded")
+		return
+	}
+	c.r.Check(prop, stream, ops, model, impl)
 }
 
 // try validates p through the real full validator, compares with the model, and applies the oracle.
@@ -457,7 +472,7 @@ func (c *ctxt) try(kind string, p payload, expect string, origs ...payload) stri
 	impl := realFull(p)
 	op := describe(p, "full", c.in)
 	model := r.Ask(op)
-	r.Check(prop, "space.validate", []string{kind, op}, model, impl)
+	c.check("space.validate", []string{kind, op}, model, impl)
 	r.Case(kind+"|"+op, true)
 	short := strings.SplitN(kind, " ", 2)[0]
 	r.Count("mut." + short + "=" + impl)
@@ -1252,7 +1267,7 @@ func (c *ctxt) headerOnly(s, o *space) {
 			st = fmt.Sprint(c.in.b(set))
 		}
 		op := describe(p, fmt.Sprintf("hdr:%s:%s:%s", k, a, st), c.in)
-		r.Check(prop, "space.validateHeader", []string{kind, op}, r.Ask(op), impl)
+		c.check("space.validateHeader", []string{kind, op}, r.Ask(op), impl)
 		r.Case(kind+"|"+op, true)
 		r.Count("hdr." + strings.SplitN(kind, " ", 2)[1] + "=" + impl)
 		if want != "" && !strings.HasPrefix(impl, want) {
